@@ -1,7 +1,79 @@
-(* placeholder until the codec theorems land *)
-From Coq Require Import List.
-From OKE Require Import BytesLemmas.
-Theorem C05_placeholder : forall l x y px py r1 r2,
-  Bytes.lenprefix l x = Some px -> Bytes.lenprefix l y = Some py -> px ++ r1 = py ++ r2 -> x = y /\ r1 = r2.
+(* C05 - identities, context and credential identifier are bound, unambiguously.
+   The injectivity half is unconditional list arithmetic: no hash is involved, so "moving bytes
+   between context, client identity and server identity, or changing a length across the 255/256
+   or 65535 boundary, never turns a mismatch into a match" holds for every length below 2^16, and
+   longer values are refused.  Statements only; proofs in Theory/Transcript.v, Theory/BytesLemmas.v. *)
+From Coq Require Import List NArith.
+From OKE Require Import Bytes Suite Generated Labels Messages Envelope TripleDH Opaque BytesLemmas Transcript.
+
+(* the length prefix refuses exactly what does not fit: never a wrapped or truncated encoding *)
+Theorem C05_i2osp2_refuses : forall n, i2osp_nat 2 n = None <-> (65536 <= N.of_nat n)%N.
+Proof. exact i2osp2_refuses. Qed.
+Print Assumptions C05_i2osp2_refuses.
+
+(* a length-prefixed field followed by anything determines the field and the rest *)
+Theorem C05_lenprefix_injective :
+  forall l x y px py r1 r2, lenprefix l x = Some px -> lenprefix l y = Some py -> px ++ r1 = py ++ r2 -> x = y /\ r1 = r2.
 Proof. exact lenprefix_inj. Qed.
-Print Assumptions C05_placeholder.
+Print Assumptions C05_lenprefix_injective.
+
+(* the 3DH transcript determines context, both effective identities, the request, the response
+   without MAC, the server nonce and the server ephemeral key *)
+Theorem C05_preamble_injective :
+  forall context iu req is_ l2 n e context' iu' req' is_' l2' n' e' u s u' s' p,
+    lenprefix 2 iu = Some u -> lenprefix 2 is_ = Some s ->
+    lenprefix 2 iu' = Some u' -> lenprefix 2 is_' = Some s' ->
+    length req = length req' -> length l2 = length l2' -> length n = length n' ->
+    preamble context u req s l2 n e = Ok p ->
+    preamble context' u' req' s' l2' n' e' = Ok p ->
+    context = context' /\ iu = iu' /\ req = req' /\ is_ = is_' /\ l2 = l2' /\ n = n' /\ e = e'.
+Proof. exact preamble_injective. Qed.
+Print Assumptions C05_preamble_injective.
+
+Theorem C05_no_boundary_shift :
+  forall context iu is_ context' iu' is_' req l2 n e u s u' s' p p',
+    lenprefix 2 iu = Some u -> lenprefix 2 is_ = Some s ->
+    lenprefix 2 iu' = Some u' -> lenprefix 2 is_' = Some s' ->
+    preamble context u req s l2 n e = Ok p ->
+    preamble context' u' req s' l2 n e = Ok p' ->
+    (context, iu, is_) <> (context', iu', is_') -> p <> p'.
+Proof. exact preamble_no_boundary_shift. Qed.
+Print Assumptions C05_no_boundary_shift.
+
+(* the data authenticated by the envelope determines the server key and both sealed identities *)
+Theorem C05_aad_injective :
+  forall nonce iu is_ spk nonce' iu' is_' spk' u s u' s',
+    lenprefix 2 iu = Some u -> lenprefix 2 is_ = Some s ->
+    lenprefix 2 iu' = Some u' -> lenprefix 2 is_' = Some s' ->
+    length nonce = length nonce' -> length spk = length spk' ->
+    nonce ++ construct_aad u s spk = nonce' ++ construct_aad u' s' spk' ->
+    nonce = nonce' /\ spk = spk' /\ is_ = is_' /\ iu = iu'.
+Proof. exact aad_injective. Qed.
+Print Assumptions C05_aad_injective.
+
+(* the per-credential OPRF key is derived from an injective encoding of the credential identifier *)
+Theorem C05_credential_identifier_injective :
+  forall cred cred', cred ++ STR_OPRF_KEY = cred' ++ STR_OPRF_KEY -> cred = cred'.
+Proof. exact oprf_key_info_injective. Qed.
+Print Assumptions C05_credential_identifier_injective.
+
+(* an absent identity means that party's static public key *)
+Theorem C05_default_identity_spelling :
+  forall ids cpk spk,
+    bytestrings_from_identifiers ids cpk spk =
+    bytestrings_from_identifiers {| id_client := Some (effective (id_client ids) cpk);
+                                    id_server := Some (effective (id_server ids) spk) |} cpk spk.
+Proof. exact default_identity_spelling. Qed.
+Print Assumptions C05_default_identity_spelling.
+
+(* identities and contexts that do not fit are refused *)
+Theorem C05_long_identity_refused :
+  forall ids cpk spk, (65536 <= N.of_nat (length (effective (id_client ids) cpk)))%N ->
+    bytestrings_from_identifiers ids cpk spk = Err ESerialization.
+Proof. exact bytestrings_refuses_client. Qed.
+Print Assumptions C05_long_identity_refused.
+
+Theorem C05_long_context_refused :
+  forall context u req s l2 n e, (65536 <= N.of_nat (length context))%N -> preamble context u req s l2 n e = Err ESerialization.
+Proof. exact preamble_refuses_context. Qed.
+Print Assumptions C05_long_context_refused.
